@@ -53,6 +53,10 @@ def configs(tier, seed):
         cfgs.append(dict(backend=b, backoff='r0x2', n=3, messages=1, d=0, dd=2, menu=dict(MENU, reversed_maps=True, boom=False), body8=True))
         cfgs.append(dict(backend=b, backoff='never', n=2, messages=1, d=0, dd=3, menu=dict(MENU, reversed_maps=True)))
         cfgs.append(dict(backend=b, backoff='r0x2', n=2, messages=1, d=0, dd=3, menu=MENU, unicode_replies=True, senders={'0': 's\u00e9nder@x'}, body8=True))
+        cfgs.append(dict(backend=b, backoff='r0x2', n=2, messages=1, d=0, dd=3, menu=MENU, unicode_rcpts=True))
+        # bounded store pool: building and enqueueing a bounce needs storage slots of its own
+        cfgs.append(dict(backend=b, backoff='r0x2', n=2, messages=1, d=1, dd=3, menu=MENU, store_pool=1))
+        cfgs.append(dict(backend=b, backoff='never', n=2, messages=2, d=1, dd=2, menu=MENU, store_pool=2))
     # the same id reported twice (start-up load + wait() announcement, as a shared store does after a restart) while
     # the storage read of the first report is still in flight: still one attempt, one bounce
     cfgs.append(dict(backend='dict', backoff='never', n=2, messages=0, prestored=1, harness_wait=True, slow_ops=['get'], d=3, dd=2, menu=MENU,
@@ -101,7 +105,8 @@ def check_rendering(b, orig_sender):
     if not body.endswith(tail):
         out.append(('original-not-embedded-unchanged', 'bounce body does not end with the original header block%s followed by the '
                     'closing boundary; tail of body: %r' % ('' if b['headers_only'] else ' and body', body[-(len(tail) + 40):])))
-    names = ('Delivery failed for:\r\n- ' + '\r\n- '.join(b['rcpts']) + '\r\n\r\n').encode('ascii')
+    # the bounce text is ASCII: non-ASCII addresses are written as XML character references (&#233;)
+    names = ('Delivery failed for:\r\n- ' + '\r\n- '.join(b['rcpts']) + '\r\n\r\n').encode('ascii', 'xmlcharrefreplace')
     if names not in body:
         out.append(('failed-recipients-not-named', 'text part does not list exactly %r' % (b['rcpts'],)))
     quoted = ('Destination host responded:\r\n%s %s\r\n' % (b['code'], b['message'])).encode('utf-8')
